@@ -46,6 +46,28 @@ theorem radarIsVisible_eq (cs : List Check) (r maxTo : Rat) :
     · simp only [h, if_true]; exact ih
     · simp only [h]; simp [toPair]
 
+/-- the checks `Optical.isVisible` adds behind the base cascade, in the code's order; the last ones depend on the kind of host -/
+def opticalChecks (flux vismag detectable : Rat) (galacticOk isSpace spaceLit obscured groundLit : Bool) : List Check :=
+  [⟨decide (0 < flux), "SOLAR_FLUX"⟩, ⟨!decide (vismag > detectable), "VIZ_MAG"⟩, ⟨galacticOk, "GALACTIC_EXCLUSION"⟩] ++
+    (if isSpace then [⟨spaceLit, "SPACE_ILLUMINATION"⟩, ⟨!obscured, "LIMB_OF_EARTH"⟩] else [⟨groundLit, "GROUND_ILLUMINATION"⟩])
+
+/-- `Optical.isVisible`: the base cascade, then solar flux, visual magnitude, galactic exclusion, and the lighting (and limb) tests of its host -/
+theorem opticalIsVisible_eq (cs : List Check) (flux vismag detectable : Rat) (galacticOk isSpace spaceLit obscured groundLit : Bool) :
+    Sensors.opticalIsVisible (toPair (attempt cs)).1 (toPair (attempt cs)).2 flux vismag detectable galacticOk isSpace spaceLit obscured groundLit =
+      toPair (attempt (cs ++ opticalChecks flux vismag detectable galacticOk isSpace spaceLit obscured groundLit)) := by
+  unfold Sensors.opticalIsVisible
+  induction cs with
+  | nil =>
+    simp only [attempt, toPair, List.nil_append, opticalChecks]
+    have e1 : (0 < flux) ↔ ¬ (flux ≤ 0) := Rat.not_le.symm
+    by_cases h1 : flux ≤ 0 <;> by_cases h2 : vismag > detectable <;> cases galacticOk <;> cases isSpace <;> cases spaceLit <;>
+      cases obscured <;> cases groundLit <;> simp [attempt, toPair, h1, h2, e1]
+  | cons c cs ih =>
+    simp only [attempt, List.cons_append]
+    by_cases h : c.holds = true
+    · simp only [h, if_true]; exact ih
+    · simp only [h]; simp [toPair]
+
 /-- C02 carried to the translated code: when the code's `Sensor.isVisible` answers "visible", the range limits, the
 line of sight, the elevation mask and the azimuth mask all hold -/
 theorem visible_satisfies_all (mn mx : Option Rat) (r : Rat) (los : Bool) (az el el0 el1 az0 az1 : Rat)
